@@ -5,6 +5,7 @@ import JominiModel.Proofs.BinLexer
 import JominiModel.Proofs.Buffer
 import JominiModel.Spec.BinReader
 import JominiModel.Proofs.BinReader
+import JominiModel.Proofs.BinReaderBytes
 import JominiModel.Generated.Tables
 /-
 C08 — Streaming binary reader equals the slice lexer; token encoding round-trips.
@@ -203,5 +204,106 @@ example : ¬ Fits 5 [0x0c, 0, 1, 0, 0, 0] := by
   intro h
   have := fits_head h 5 (by simp) (by rfl)
   omega
+
+/-- **`read_bytes(n)`.**  `rd` is any reader state satisfying the reader invariant `RInv`
+(it holds initially — `rinv_build`, `rinv_fromSlice` — and is re-established by every
+`next` / `read_bytes` / `skip_container` call); `rem` = the input bytes not yet consumed.
+For every fault-free schedule (any chunking):
+* `n ≤ |rem|` and capacity `≥ n` (or slice mode): the call returns exactly the next `n` bytes
+  of the input (the raw slice is taken at the window start *after* all refills), `position`
+  advances by `n`;
+* capacity `< n` with at least a buffer-full of input left: `BufferFull`, nothing consumed;
+* fewer than `n` bytes left: the `Eof` error, nothing consumed — never a short slice;
+* composition with `next()`: after a successful `read_bytes` the token stream is the slice
+  lexer's stream of the remaining bytes `rem.drop n` (same tokens, same terminal outcome, same
+  final position), provided those tokens fit. -/
+theorem C08_read_bytes (data : Bytes) (n : Nat) (rd : Reader) (h : RInv rd data)
+    (hnf : Src.NoFaults rd.src.sched) :
+    RInv (rd.readBytes n).2 data ∧
+    (n ≤ (rd.remaining data).length → (rd.buf.cap = 0 ∨ n ≤ rd.buf.cap) →
+      (rd.readBytes n).1 = .ok ((rd.remaining data).take n) ∧
+      (rd.readBytes n).2.position = rd.position + n ∧
+      (rd.readBytes n).2.remaining data = (rd.remaining data).drop n ∧
+      ((rd.buf.cap = 0 ∨ Fits rd.buf.cap ((rd.remaining data).drop n)) →
+        (Reader.streamAll (rd.readBytes n).2).1 = (lexAll ((rd.remaining data).drop n)).1 ∧
+        (Reader.streamAll (rd.readBytes n).2).2.1 = embed (lexAll ((rd.remaining data).drop n)).2.1 ∧
+        (Reader.streamAll (rd.readBytes n).2).2.2.position
+          = data.length - (lexAll ((rd.remaining data).drop n)).2.2.length)) ∧
+    (0 < rd.buf.cap → rd.buf.cap < n → rd.buf.cap ≤ (rd.remaining data).length →
+      (rd.readBytes n).1 = .error ⟨rd.position, .bufferFull⟩ ∧ (rd.readBytes n).2.position = rd.position) ∧
+    ((rd.remaining data).length < n → (rd.buf.cap = 0 ∨ (rd.remaining data).length < rd.buf.cap) →
+      (rd.readBytes n).1 = .error ⟨rd.position, .lexer .eof⟩ ∧ (rd.readBytes n).2.position = rd.position) := by
+  obtain ⟨a1, a2, a3, a4, a5, a6⟩ := readBytes_cases data n rd h hnf
+  refine ⟨a1, fun hn hc => ?_, a5, a6⟩
+  obtain ⟨b1, b2, b3⟩ := a4 hn hc
+  refine ⟨b1, b2, b3, fun hfit => ?_⟩
+  have := streamAll_from data (rd.readBytes n).2 a1 (by rw [a2, b3]; exact hfit) a3
+  rw [b3] at this
+  exact this
+
+/-- the header-then-tokens use from a fresh reader (`read_bytes(6)` for `EU4bin`, then tokens) -/
+theorem C08_read_bytes_header (buffer data : Bytes) (sched : List Step) (n : Nat)
+    (hcap : 0 < buffer.length) (hwf : Src.WfSched sched) (hnf : Src.NoFaults sched)
+    (hn : n ≤ data.length) (hnc : n ≤ buffer.length) (hfit : Fits buffer.length (data.drop n)) :
+    ((Reader.build buffer (Src.new data sched)).readBytes n).1 = .ok (data.take n) ∧
+    (Reader.streamAll ((Reader.build buffer (Src.new data sched)).readBytes n).2).1 = (lexAll (data.drop n)).1 ∧
+    (Reader.streamAll ((Reader.build buffer (Src.new data sched)).readBytes n).2).2.1
+      = embed (lexAll (data.drop n)).2.1 := by
+  have h0 := rinv_build buffer data sched hcap hwf
+  have hrem : (Reader.build buffer (Src.new data sched)).remaining data = data := by
+    simp [Reader.remaining, Reader.build, Buf.build, Reader.position, Buf.position, Buf.consumedData]
+  obtain ⟨_, a, _, _⟩ := C08_read_bytes data n _ h0 hnf
+  rw [hrem] at a
+  obtain ⟨b1, _, _, b4⟩ := a hn (Or.inr hnc)
+  obtain ⟨c1, c2, _⟩ := b4 (Or.inr hfit)
+  exact ⟨b1, c1, c2⟩
+
+example : ((Reader.build [0, 0, 0, 0, 0, 0] (Src.new [0x45, 0x55, 0x34, 0x0e, 0, 1] [.repeat 1])).readBytes 3).1
+    = .ok [0x45, 0x55, 0x34] := by rfl
+
+/-- `read_bytes` under any well-formed schedule, faults included: the call returns the next `n`
+bytes, or the I/O error, or `Eof` only when fewer than `n` bytes are left, or `BufferFull` only
+when the buffer is smaller than `n`; an error consumes nothing; no out-of-window pointer, no
+fuel exhaustion; the invariant survives (so a retry after a transient fault is sound). -/
+theorem C08_read_bytes_faulty (data : Bytes) (n : Nat) (rd : Reader) (h : RInv rd data) :
+    RInv (rd.readBytes n).2 data ∧ BytesPost data n rd (rd.readBytes n).1 (rd.readBytes n).2 := by
+  obtain ⟨a, _, c⟩ := readBytes_spec data n rd.fuelFor rd h (by simp [Reader.fuelFor])
+  exact ⟨a, c⟩
+
+/-- **Known finding, exhibited on the model** (`zero-capacity-buffer-drops-input`):
+`TokenReader::builder().buffer_len(0).build(reader)` reports a clean end of input on the first
+`next()` without delivering a single byte, for *every* input and schedule — although the slice
+lexer finds tokens in, e.g., `0c 00 01 00 00 00`.  (buffer.rs treats a zero-capacity buffer as
+slice mode.)  This is why `C08_too_small_is_error` and the streaming theorems require
+`cap ≥ 1`. -/
+theorem C08_known_zero_capacity_drops_input :
+    (∀ (data : Bytes) (sched : List Step),
+      Reader.streamAll (Reader.ofLen 0 (Src.new data sched)) = ([], .done, Reader.ofLen 0 (Src.new data sched)) ∧
+      (Reader.ofLen 0 (Src.new data sched)).src.delivered = 0 ∧
+      (Reader.ofLen 0 (Src.new data sched)).src.rest = data) ∧
+    (lexAll [0x0c, 0, 1, 0, 0, 0]).1 = [.i32 1] :=
+  ⟨fun data sched => ⟨zero_cap_stream data sched, rfl, rfl⟩, by rfl⟩
+
+/-- **A stray trailing byte is an error, never a clean end.**  For every well-formed token
+sequence followed by one extra byte (so the input has one byte that starts no token — the
+odd-length case for 2-byte tokens): the slice lexer returns the tokens and then `Eof` with that
+byte unread, and so does the streaming reader for every fault-free schedule and fitting buffer:
+the tokens, then the `Eof` *error* (not `Ok(None)`), at position `|data| − 1`. -/
+theorem C08_trailing_byte_is_error (toks : List Token) (hwf : ∀ t ∈ toks, WfTok t) (b : UInt8)
+    (buffer : Bytes) (sched : List Step) (hcap : 0 < buffer.length) (hwfs : Src.WfSched sched)
+    (hnf : Src.NoFaults sched) (hfit : Fits buffer.length (toks.flatMap Token.write ++ [b])) :
+    lexAll (toks.flatMap Token.write ++ [b]) = (toks, .err .eof, [b]) ∧
+    (Reader.streamAll (Reader.build buffer (Src.new (toks.flatMap Token.write ++ [b]) sched))).1 = toks ∧
+    (Reader.streamAll (Reader.build buffer (Src.new (toks.flatMap Token.write ++ [b]) sched))).2.1
+      = .err (.lexer .eof) ∧
+    (Reader.streamAll (Reader.build buffer (Src.new (toks.flatMap Token.write ++ [b]) sched))).2.2.position
+      = (toks.flatMap Token.write).length := by
+  have hl := lexAll_trailing toks hwf b
+  obtain ⟨a1, a2, a3, _⟩ := C08_stream_eq_lexer buffer _ sched hcap hwfs hnf hfit
+  rw [hl] at a1 a2 a3
+  refine ⟨hl, a1, a2, ?_⟩
+  rw [a3]; simp
+
+example : lexAll [0x03, 0, 0x04, 0, 0xff] = ([.open, .close], .err .eof, [0xff]) := by rfl
 
 end Jomini.Props.C08
